@@ -128,7 +128,10 @@ func (c *Ctl) Hook(pt string, obj any, n int) {
 			if v := int32(uint64(s)>>33) % y; v == 0 {
 				runtime.Gosched()
 			} else if v == 1 {
+				// the perturbation sleep is itself a timed wait: account for it so that it is never mistaken for quiescence
+				freeTimed.Add(1)
 				time.Sleep(time.Duration(uint64(s)>>40%50) * time.Microsecond)
+				freeTimed.Add(-1)
 			}
 		}
 		return
@@ -534,6 +537,7 @@ func WaitGone(self int64, budget time.Duration, match func(g GInfo) bool) []GInf
 
 // StartFree switches to free-running mode; yield1inN = 0 disables perturbation.
 func (c *Ctl) StartFree(seed int64, yield1inN int) {
+	freeTimed.Store(0)
 	c.freeSeed.Store(seed*7919 + 17)
 	c.freeYield.Store(int32(yield1inN))
 	c.mode.Store(ModeFree)
